@@ -328,5 +328,14 @@ instance (d : TsigData) : Decidable (TimeLtFudge d) := by unfold TimeLtFudge; ex
 def CountOverflow (h : Hdr) : Prop := h.an + h.ns > 65535
 instance (h : Hdr) : Decidable (CountOverflow h) := by unfold CountOverflow; exact inferInstance
 
+/-- `C13.ReplyTruncatedAfterSigning`: the reply is MAC'ed over its unlimited encoding
+(`unsignedLen` octets) but sent under the transport's size limit; with the TSIG RR it does not
+fit, so records covered by the MAC are dropped before sending.  (The size-limited encoder itself
+is modelled in C03; here only the class of the recorded finding.) -/
+def ReplyTruncatedAfterSigning (limit unsignedLen tsigLen : Nat) : Prop :=
+  unsignedLen + tsigLen > limit
+instance (a b c : Nat) : Decidable (ReplyTruncatedAfterSigning a b c) := by
+  unfold ReplyTruncatedAfterSigning; exact inferInstance
+
 end Tsig
 end HickoryVerif
